@@ -48,7 +48,98 @@ def norm_guard(g):
     return unparse(l), op, unparse(r)
 
 
+def linked_signed(chk, repo):
+    """R26.2: the control law subtracts the encoder from the target and
+    compares velocities with negated limits: the terminal variables that
+    the package itself links to Motor.encoder and Motor.velocity (the link
+    sites are read from the source, examples included) are declared with a
+    signed format.  Without one the width is taken from the PDO mapping
+    and the variable is unsigned: a negative position reads as a large
+    positive one."""
+    motor = repo.cls(M)
+    n = 0
+    for m in repo.production_modules():
+        for fn in [x for x in ast.walk(m.tree) if isinstance(x, FUNC)]:
+            made = {}
+            for st in walk_no_nested(fn):
+                if isinstance(st, ast.Assign) and len(st.targets) == 1 and \
+                        isinstance(st.targets[0], ast.Name) and isinstance(
+                            st.value, ast.Call):
+                    nm = (dotted(st.value.func) or "").split(".")[-1]
+                    r = repo.resolve_name(m, nm) if nm else None
+                    if r and r[0] == "class":
+                        made[st.targets[0].id] = r[1]
+            for st in walk_no_nested(fn):
+                if not (isinstance(st, ast.Assign) and len(st.targets) == 1):
+                    continue
+                t, v = st.targets[0], st.value
+                if not (isinstance(t, ast.Attribute) and t.attr in (
+                        "encoder", "velocity") and isinstance(
+                            t.value, ast.Name) and isinstance(
+                                v, ast.Attribute)):
+                    continue
+                mc = made.get(t.value.id)
+                if mc is None or not repo.is_subclass(mc, M):
+                    continue
+                root = v.value
+                chain = [v.attr]
+                while isinstance(root, ast.Attribute):
+                    chain.append(root.attr)
+                    root = root.value
+                tc = made.get(root.id) if isinstance(root, ast.Name) else None
+                if tc is None:
+                    continue
+                # the declaration: attribute of the terminal class, or of
+                # the channel class nested in it
+                ci = tc
+                decl = None
+                for a in reversed(chain):
+                    own, node = repo.lookup(ci, a)
+                    if node is None:
+                        break
+                    if isinstance(node, ast.ClassDef):
+                        ci = own.inner[a]
+                        continue
+                    if isinstance(node, ast.Call) and isinstance(
+                            node.func, ast.Attribute) is False and (
+                            dotted(node.func) or "").endswith("Struct"):
+                        break
+                    decl = node
+                if decl is None and len(chain) == 2:
+                    # a channel: `channelN = Channel(offset)` of a Struct
+                    own, node = repo.lookup(tc, chain[1])
+                    if isinstance(node, ast.Call):
+                        r = repo.resolve_name(tc.module, (dotted(
+                            node.func) or "").split(".")[-1])
+                        inner = tc.inner.get((dotted(node.func) or
+                                              "").split(".")[-1])
+                        cci = inner or (r[1] if r and r[0] == "class"
+                                        else None)
+                        if cci is not None:
+                            decl = repo.lookup(cci, chain[0])[1]
+                if not isinstance(decl, ast.Call):
+                    continue
+                n += 1
+                fmt = decl.args[2] if len(decl.args) > 2 else None
+                for k in decl.keywords:
+                    if k.arg in ("size", "fmt", "format"):
+                        fmt = k.value
+                ok = isinstance(fmt, ast.Constant) and isinstance(
+                    fmt.value, str) and fmt.value[-1:] in ("b", "h", "i",
+                                                           "q", "l")
+                chk.ob("R26.2", func_qual(repo, st), f"`{unparse(v)}`, "
+                       f"linked to Motor.{t.attr}, is declared signed", ok,
+                       decl, f"`{unparse(decl)}`" + (
+                           ": no signed format - the variable takes the "
+                           "width of the PDO entry and is unsigned, the "
+                           "control law sees a negative value as a large "
+                           "positive one" if not ok else ""))
+    chk.floor("R26.2", "terminal variables linked to Motor.encoder / "
+              "Motor.velocity in the package", n, 2)
+
+
 def run(chk, repo):
+    linked_signed(chk, repo)
     # the control law is made of signed comparisons and loads of the
     # terminal's variables: the lowering rules those rest on are necessary
     # conditions here as well (shared with C03, C01, C19)
